@@ -47,6 +47,8 @@ CONDS = {
     "A - 1": lambda t: _val0(t, "A") - 1,
     # the same macro named twice in one expression (each occurrence is expanded)
     "A == 1 || A == 2": lambda t: int(_val(t, "A") in (1, 2)),
+    # two operators of equal precedence: left to right (stays valid for an empty A: unary minus)
+    "A - 1 - 1 == 0": lambda t: int(_val0(t, "A") - 2 == 0),
 }
 
 
